@@ -84,12 +84,13 @@ const (
 
 // Packer turns units into RTP packets with a chosen payload limit.
 type Packer struct {
-	Codec   Codec
-	PT      uint8
-	Ssrc    uint32
-	Seq     uint16
-	Max     int  // payload limit
-	UseStap bool // aggregate consecutive small NAL units of one access unit (STAP-A / AP)
+	Codec     Codec
+	PT        uint8
+	Ssrc      uint32
+	Seq       uint16
+	Max       int  // payload limit
+	UseStap   bool // aggregate consecutive small NAL units of one access unit (STAP-A / AP)
+	FragAudio bool // AAC: fragment access units larger than Max (RFC 3640 3.2.3.1)
 }
 
 // PackVideoAU packetises one access unit (list of NAL units) with RTP timestamp ts; the marker is set on the last packet.
@@ -163,6 +164,24 @@ func (p *Packer) PackVideoAU(nals [][]byte, ts uint32) []Packet {
 // PackAudio packetises one audio frame (AAC: one AU per packet, RFC 3640 AAC-hbr; raw otherwise).
 func (p *Packer) PackAudio(frame []byte, ts uint32) []Packet {
 	var pl []byte
+	if p.Codec == AAC && p.FragAudio && p.Max > 4 && len(frame) > p.Max-4 {
+		// RFC 3640 3.2.3.1: every fragment carries the AU header with the size of the whole access unit,
+		// the same timestamp, and the marker only on the last one
+		var out []Packet
+		rest := frame
+		for len(rest) > 0 {
+			n := p.Max - 4
+			if n > len(rest) {
+				n = len(rest)
+			}
+			b := []byte{0, 16, byte(len(frame) >> 5), byte(len(frame)&0x1f) << 3}
+			b = append(b, rest[:n]...)
+			rest = rest[n:]
+			out = append(out, Packet{PT: p.PT, Seq: p.Seq, Ts: ts, Ssrc: p.Ssrc, Payload: b, Marker: len(rest) == 0})
+			p.Seq++
+		}
+		return out
+	}
 	if p.Codec == AAC {
 		pl = []byte{0, 16, byte(len(frame) >> 5), byte(len(frame)&0x1f) << 3}
 		pl = append(pl, frame...)
